@@ -45,4 +45,43 @@ def dtCodecs (wire : JVal F → JVal F) (dt cdt : DType F) : Codecs (PVal F) (JV
     | .ok j => j
     | .error _ => .null       -- not reached for values of the type (`export_kind`)
 
+/-! ## The node side of a `change`, with validation (what the correspondence run compares with the code)
+
+`Dispatcher._setParameterValue` (`protocol/dispatcher.py:171-178`): `import_value`, `validate(value, previous=pobj.value)`,
+`write_<p>(value)`, reply with `pobj.export_value()`.  The generated write wrapper (`modulebase.py:185-204`): `validate(value)`
+once more, the driver's function, `validate` of what it returned (of the value itself when it returned `None`),
+`announceUpdate(…, validate=False)` stores it. -/
+
+/-- the value the driver's write function is called with -/
+def nodeAccept (dt : DType F) (prev : Option (PVal F)) (j : JVal F) : Res F :=
+  match acceptWire dt j prev with
+  | .error e => .error e
+  | .ok v => validate dt v none
+
+/-- the data part of the `changed` reply for a driver that returned `r` -/
+def nodeAnswer (dt : DType F) (r : PVal F) : Except Err (JVal F) :=
+  match validate dt r none with
+  | .error e => .error e
+  | .ok v => exportValue dt v
+
+structure WriteTrace (F : Type) where
+  driverGot : PVal F       -- argument of `write_<p>`
+  cached : PVal F          -- value of the client's cache entry after the `changed` reply
+
+/-- one `setParameter(m, p, v)` through client export, node import + validation, driver (`ret = none`: it echoes its
+argument), node answer and client import; `none` = some step raises -/
+def writeTrace (dt cdt : DType F) (prev : Option (PVal F)) (v : PVal F) (ret : Option (PVal F)) : Option (WriteTrace F) :=
+  match exportValue cdt v with
+  | .error _ => none
+  | .ok j =>
+    match nodeAccept dt prev j with
+    | .error _ => none
+    | .ok got =>
+      match nodeAnswer dt (ret.getD got) with
+      | .error _ => none
+      | .ok back =>
+        match importValue cdt back with
+        | .error _ => none
+        | .ok c => some ⟨got, c⟩
+
 end Frappy.Client.Cache
